@@ -659,6 +659,41 @@ class Executor:
             self.frames[-1].raises.append((pc, name, self.where(s)))
             self.oblige("raise", pc, s, name)
             return env, FALSE
+        if isinstance(s, ast.Match):
+            # `match subject:` with literal / singleton / or-patterns and a wildcard, without guards: the
+            # same as an if / elif chain on equality (subject evaluated once, bound to a fresh name)
+            tmp = f"__match_subject_{s.lineno}"
+            env = dict(env)
+            env[tmp] = self.eval(s.subject, env, pc)
+            subj = ast.Name(id=tmp, ctx=ast.Load())
+
+            def test_of(pat):
+                if isinstance(pat, ast.MatchValue):
+                    return ast.Compare(left=subj, ops=[ast.Eq()], comparators=[pat.value])
+                if isinstance(pat, ast.MatchSingleton):
+                    return ast.Compare(left=subj, ops=[ast.Is()], comparators=[ast.Constant(pat.value)])
+                if isinstance(pat, ast.MatchOr):
+                    return ast.BoolOp(op=ast.Or(), values=[test_of(p_) for p_ in pat.patterns])
+                if isinstance(pat, ast.MatchAs) and pat.pattern is None and pat.name is None:
+                    return None  # wildcard
+                raise Unsupported(f"match pattern {ast.unparse(pat)}")
+
+            chain = None
+            for case in reversed(s.cases):
+                if case.guard is not None:
+                    raise Unsupported("match case with a guard")
+                t_ = test_of(case.pattern)
+                if t_ is None:
+                    chain = list(case.body)
+                else:
+                    node = ast.If(test=t_, body=list(case.body), orelse=chain or [])
+                    ast.copy_location(node, case.body[0])
+                    ast.fix_missing_locations(node)
+                    chain = [node]
+            out_env, live = self.exec_block(chain or [], env, pc)
+            out_env = dict(out_env)
+            out_env.pop(tmp, None)
+            return out_env, live
         if isinstance(s, ast.If):
             c = self.truthy(self.eval(s.test, env, pc))
             if c is True:
